@@ -83,7 +83,24 @@ def lock_window(c):
             c.report("lock:window:holder-without-lock", "a holder that was slow taking the lock ended up open without owning the lock: %s" % r["holder_out"][:200], {"lock_window": True})
 
 
+def other_user(c):
+    """A live holder that belongs to another user (the second process cannot signal it) is still a live holder."""
+    out = os.path.join(c.scratch, "lock-other-user.ndjson")
+    c.vh(["lock-other-user", out, c.build_gitbug()], timeout=300)
+    rec = json.loads(open(out).readline())
+    c.cov["other_user"] = {k: rec.get(k) for k in ("skipped", "admitted", "names_holder")}
+    if rec["skipped"]:
+        c.notes.append("not running as root: the holder-of-another-user scenario was skipped")
+        return
+    if rec["admitted"] or rec["lock_after"] != rec["lock_before"] or not rec["probe_failed"]:
+        c.report("lock:other-user:live-lock-taken", "a process of another user was not refused while the holder (pid %s) lives: lock file %r -> %r; %s" % (
+            rec["holder_pid"], rec["lock_before"], rec["lock_after"], rec["probe_out"][:200]), {"other_user": True})
+    elif not rec["names_holder"]:
+        c.report("lock:other-user:holder-not-named", "the refusal does not name the holder (pid %s): %s" % (rec["holder_pid"], rec["probe_out"][:200]), {"other_user": True})
+
+
 def run(c):
+    other_user(c)
     lock_window(c)
     close_window(c)
     d = c.specdir()
@@ -132,6 +149,8 @@ def replay(c, rep):
         return close_window(c)
     if rep["replay"].get("lock_window"):
         return lock_window(c)
+    if rep["replay"].get("other_user"):
+        return other_user(c)
     mism, _ = run_scheds(c, [rep["replay"]["schedule"]], "replay")
     for m in mism:
         c.report(rep["key"], m["why"], rep["replay"])
